@@ -25,7 +25,7 @@ MODES = {
     'replace-no-backup': ['--replace', '--no-backup', NAME],
     'f-o-same': ['-f', NAME, '-o', NAME],
 }
-CFG = 'indent_columns=4\nindent_with_tabs=0\nnl_end_of_file=force\nnl_end_of_file_min=1\n'
+CFG = "indent_columns=4\nindent_with_tabs=0\nnl_end_of_file=force\nnl_end_of_file_min=1\nnl_max=2\n"
 
 
 def source(kind, size):
@@ -33,7 +33,12 @@ def source(kind, size):
     i = 0
     unit = b'int f%d(int a){int b=a;\nif(a){b=b+%d;}\nreturn b;}\n'
     while len(body) < size:
-        body += unit % (i, i)
+        u = unit % (i, i)
+        if kind == 'shrinks':
+            # lots of trailing blanks and blank lines: the formatted text is much smaller than the source, so a size limit can
+            # cut the backup copy short while the output still fits
+            u = u.replace(b'\n', b' ' * 120 + b'\n\n\n')
+        body += u
         i += 1
     if kind == 'fails-early':
         body += b'void g(void) { /* unterminated\n'
@@ -50,10 +55,12 @@ def scenarios(tier):
     out = []
     sizes = {'small': 60, 'page': 5000, 'big': 20000}
     for mode in MODES:
-        for state in ('needs', 'formatted', 'fails-early', 'fails-late'):
+        for state in ('needs', 'formatted', 'fails-early', 'fails-late', 'shrinks'):
             for prior in (('none',) if 'no-backup' in mode else ('none', 'valid', 'stale')):
                 for sz in sizes:
                     if state.startswith('fails') and sz != 'small':
+                        continue
+                    if state == 'shrinks' and (sz == 'small' or 'no-backup' in mode):
                         continue
                     out.append(dict(mode=mode, state=state, prior=prior, size=sz, nbytes=sizes[sz]))
     return out
@@ -170,7 +177,11 @@ def _reference(sc):
                         inj = ['%s:error=%s:when=%d+%d' % (a[0], a[2], a[1], c[1] - a[1])]
                     points.append(('pair', '%s on %s#%d(%s and %s on %s#%d(%s' % (a[2], a[0], a[1], a[3][:30], c[2], c[0], c[1], c[3][:30]), inj, None, False))
             n = len(formatted or orig)
-            for lim in sorted({0, 1, n // 2, max(0, n - 1), n, 4095, 4096, 4097}):
+            lims = {0, 1, n // 2, max(0, n - 1), n, 4095, 4096, 4097}
+            if formatted is not None and len(orig) > len(formatted) + 4096:
+                lims |= {len(formatted) + 1, (len(formatted) + len(orig)) // 2, len(orig) - 1}
+                lims |= {k * 4096 for k in range(1, len(orig) // 4096 + 1) if len(formatted) < k * 4096 < len(orig)}
+            for lim in sorted(lims):
                 for ign in (True, False):
                     points.append(('fsize', 'RLIMIT_FSIZE=%d, SIGXFSZ %s' % (lim, 'ignored' if ign else 'default'), [], lim, ign))
         return dict(sc=sc, probs=probs, window=['%s#%d' % (n, o) for _, n, o, _ in win], points=points)
